@@ -660,6 +660,46 @@ func scMaxRecv(tr string, viaSocket bool, msglen int, sets []string) string {
 	return "delivered"
 }
 
+// scResizeDeadline: a Recv bounded by RECV-DEADLINE 300 ms is pending while READQ-LEN is changed twice (at 100 and
+// 250 ms): the deadline that was accepted still takes effect as documented -- the Recv times out at 300 ms, not later.
+func scResizeDeadline(p string) string {
+	sock := wire.New(p)
+	defer sock.Close()
+	if p == "sub" || p == "xsub" {
+		_ = sock.SetOption(mangos.OptionSubscribe, []byte{})
+	}
+	if err := sock.SetOption(mangos.OptionRecvDeadline, 300*time.Millisecond); err != nil {
+		return "set:" + short(err)
+	}
+	type res struct {
+		err error
+		d   time.Duration
+	}
+	done := make(chan res, 1)
+	t0 := time.Now()
+	go func() { _, e := sock.Recv(); done <- res{e, time.Since(t0)} }()
+	for i, v := range []int{4, 9} {
+		time.Sleep(time.Until(t0.Add([]time.Duration{100 * time.Millisecond, 250 * time.Millisecond}[i])))
+		if err := sock.SetOption(mangos.OptionReadQLen, v); err != nil {
+			return "resize:" + short(err)
+		}
+	}
+	select {
+	case r := <-done:
+		switch {
+		case r.err != mangos.ErrRecvTimeout:
+			return "recv:" + short(r.err)
+		case r.d < 290*time.Millisecond:
+			return fmt.Sprintf("early:%d", r.d.Milliseconds())
+		case r.d > 520*time.Millisecond: // a restarted deadline would end at 550 ms
+			return fmt.Sprintf("late:%d", r.d.Milliseconds())
+		}
+		return "ontime"
+	case <-time.After(2 * time.Second):
+		return "blocked"
+	}
+}
+
 // scAlias: an option value handed over as a []byte belongs to the caller again once SetOption has returned: the caller
 // re-uses the buffer and the accepted value must not follow it.  (SUB topics are the []byte-valued options.)
 func scAlias(onCtx bool) string {
@@ -722,6 +762,8 @@ func runScenario(spec string) {
 			out = scRetry(atoi(f[1]), atoi(f[2]))
 		case "origin":
 			out = scOrigin(f[1:])
+		case "resizedeadline":
+			out = scResizeDeadline(f[1])
 		case "alias":
 			out = scAlias(f[1] == "ctx")
 		case "maxrecv":
@@ -804,6 +846,11 @@ func allScenarios() []scenario {
 		sc = append(sc, scenario{strings.TrimSpace("origin " + seq), "EOrigin " + coqgen.List(bs)})
 	}
 	sc = append(sc, scenario{"alias sock", "EAlias false"}, scenario{"alias ctx", "EAlias true"})
+	for _, p := range recvZeroPats {
+		if p != "req" && has(readQPats, p) {
+			sc = append(sc, scenario{"resizedeadline " + p, "EResizeDeadline " + protoCoq(p)})
+		}
+	}
 	// MAX-RCV-SIZE on a listener, directly or through its socket, before and after Listen: the limit in force for a connection
 	// accepted later is the last value set (0 = none; the default is 1 MiB)
 	for ti, tr := range []string{"tcp", "ipc", "tls+tcp", "ws", "wss"} {
